@@ -22,7 +22,7 @@ COMPONENTS = {"real": ["ECAgent.Environments.SpaceWorld.add_agent / remove_agent
                        "GridWorld constructors", "PositionComponent"],
               "stub": ["agents are plain ECAgent agents created by the harness"]}
 PROBES = ["multi_lap_wrap", "negative_wrap", "clamp_both_sides_one_move", "placement_on_hi", "zero_extent_axis",
-          "reject.oob", "reject.move_to_oob", "reject.no_position", "move_to_accepted", "continuous_world", "grid_world", "model_lifecycle_op"]
+          "reject.oob", "reject.move_to_oob", "reject.no_position", "move_to_accepted", "continuous_world", "grid_world", "model_lifecycle_op", "wrap_mode_switched", "defaults_used_for_omitted_coordinates"]
 TECHNIQUE = "deterministic simulation: seeded placement/move histories with injected rejected operations vs an exact (dyadic) arithmetic reference, containment invariant after every op"
 LEVEL_TEXT = ("Seeded search over world configurations and move histories; after every operation every resident agent's "
               "coordinates must equal the exact reference (modular in wrapping worlds, saturating otherwise) and lie inside "
@@ -50,16 +50,30 @@ def generate(rng, tier):
                                                     for ax in range(3)]})
         elif r < 0.65:
             axes = rng.sample(range(3), rng.randint(1, 3))
-            ops.append({"op": "move", "k": k, "d": [gen_delta(rng, ref, ax) if ax in axes else 0 for ax in range(3)]})
+            ops.append({"op": "move", "k": k, "d": [gen_delta(rng, ref, ax) if ax in axes else 0 for ax in range(3)],
+                        "sparse": rng.random() < 0.4})
         elif r < 0.88:
             ops.append({"op": "move_to", "k": k, "p": [gen_coord(rng, ref, ax) if rng.random() < 0.5 else
                                                         (rng.randint(0, max(ref.hi(ax), 0)) if ref.positive(ax) else 0)
-                                                        for ax in range(3)]})
+                                                        for ax in range(3)], "sparse": rng.random() < 0.4})
+            if ops[-1]["sparse"] and rng.random() < 0.6:
+                ops[-1]["p"] = [ops[-1]["p"][0], 0 if rng.random() < 0.7 else ops[-1]["p"][1], 0]
         elif r < 0.985:
             ops.append({"op": "remove", "k": k})
-        else:
+        elif r < 0.993:
             ops.append({"op": "lifecycle", "k": k, "what": rng.choice(["step", "complete"])})
+        else:
+            ops.append({"op": "flip_wrap", "k": k})
     return {"world": world, "n": n, "ops": ops}
+
+
+def sparse(args, on):
+    """Drop trailing coordinates that equal the documented default 0 (move_to(agent, 4) requests (4, 0, 0))."""
+    args = list(args)
+    if on:
+        while args and args[-1] == 0:
+            args.pop()
+    return args
 
 
 def execute(sc, ctx):
@@ -109,7 +123,7 @@ def execute(sc, ctx):
                 continue     # duplicate ids are C04's dimension
             rp = ref.real(p)
             if ref.inside(p):
-                ctx.expect_ok("add", env.add_agent, a, *rp)
+                ctx.expect_ok("add", env.add_agent, a, *sparse(rp, op.get("sparse")))
                 pos[k] = list(p)
                 got = get_pos(a)
                 ctx.check(got == rp, "placement", f"a{k} placed at {rp} is at {got}")
@@ -137,7 +151,12 @@ def execute(sc, ctx):
             else:
                 old = pos[k]
                 base = [old[ax] if old[ax] is not None else 0 for ax in range(3)]
-                ctx.expect_ok("move", env.move, a, *rd)
+                if op.get("sparse"):
+                    ctx.probe("defaults_used_for_omitted_coordinates")
+                    kw = {n_: v_ for n_, v_ in zip("xyz", rd) if v_ != 0}
+                    ctx.expect_ok("move", env.move, a, **kw)
+                else:
+                    ctx.expect_ok("move", env.move, a, *rd)
                 new = ref.move(base, d)
                 for ax in range(3):
                     if ref.positive(ax) and old[ax] is None:
@@ -168,7 +187,9 @@ def execute(sc, ctx):
                 ctx.check(snapshot() == before, "rejected-move_to-changed-state", f"a{k}")
                 shape.append(["move_to", "nopos"])
             elif ref.inside(p):
-                ctx.expect_ok("move_to", env.move_to, a, *rp)
+                ctx.expect_ok("move_to", env.move_to, a, *sparse(rp, op.get("sparse")))
+                if op.get("sparse"):
+                    ctx.probe("defaults_used_for_omitted_coordinates")
                 pos[k] = list(p)
                 ctx.check(get_pos(a) == rp, "move_to-landing", f"a{k} moved to {rp} is at {get_pos(a)}")
                 ctx.probe("move_to_accepted")
@@ -181,6 +202,10 @@ def execute(sc, ctx):
                 ctx.check(snapshot() == before, "rejected-move_to-changed-state", f"move_to of a{k} to {rp}")
                 shape.append(["move_to", "rej"])
             ctx.event("move_to", k, p)
+        elif kind == "flip_wrap":
+            env.wrap_env = not env.wrap_env        # a public attribute (the package's own tests reassign it)
+            ref.wrap = not ref.wrap
+            ctx.probe("wrap_mode_switched")
         elif kind == "lifecycle":
             ctx.expect_ok("lifecycle", m.complete if op["what"] == "complete" else m.execute)
             ctx.probe("model_lifecycle_op")
